@@ -449,17 +449,16 @@ class C15(FMonitor):
     def on_step(self, led):
         # FIRST_AVAILABLE: the used token must be the lowest-index one among the batch members that were granted
         for t in led.tokens:
-            if t.status == "used" and getattr(t, "batch", None) is None:
-                t.batch = True
-                sibs = [s for s in led.tokens if s is not t and s.proc is t.proc and s.side == t.side and abs(s.t_issue - t.t_issue) < EPS
-                        and s.t_issue == t.t_issue and s.status == "cancelled" and s.t_end is not None and abs(s.t_end - t.t_end) < EPS]
+            if t.status == "used" and not t.checked:
+                t.checked = True
+                sibs = [s for s in led.tokens if s is not t and s.batch == t.batch and s.status == "cancelled"]
                 node = t.node
                 if node is None or tname(node) == "Combiner":
                     continue
                 lst = getattr(node, ("out" if t.side == "p" else "in") + "_edges", None) or []
                 idx = {id(e): i for i, e in enumerate(lst)}
                 for s in sibs:
-                    if s.ev.triggered and idx.get(id(s.edge), 99) < idx.get(id(t.edge), -1):
+                    if s.was_triggered and idx.get(id(s.edge), 99) < idx.get(id(t.edge), -1):
                         led.V("C15", "first-available-lowest-index", "%s used %s (index %d) although its request on %s (index %d) had been granted too"
                               % (led.nid(node), t.edge.id, idx[id(t.edge)], s.edge.id, idx[id(s.edge)]), node=tname(node), side=t.side)
                         return
